@@ -65,6 +65,25 @@ type Exec struct {
 	free      bool
 	freeMu    sync.Mutex
 	seq       bool // inside Sequential: scheduling switched off (see Sequential)
+	// OnAcquire, when set, is called by the vsync shims right after the running thread has ACQUIRED lock m
+	// (write or read mode). It lets an oracle timestamp the moment a handler really entered a critical section
+	// (the linearisation point of "the event reached the component"). No scheduling effect. (Added for C14.)
+	OnAcquire func(m any)
+}
+
+// Acquired is called by the lock shims after a successful acquisition (see OnAcquire).
+func (x *Exec) Acquired(m any) {
+	if x.OnAcquire != nil && !x.aborted {
+		x.OnAcquire(m)
+	}
+}
+
+// CurName returns the name of the running logical thread ("" outside a controlled execution).
+func (x *Exec) CurName() string {
+	if x.cur == nil {
+		return ""
+	}
+	return x.cur.Name
 }
 
 // Sequential runs f in the calling goroutine with scheduling switched off:
